@@ -487,8 +487,8 @@ def histories(ctx, kind, owned, cap=None, thorough_len=4, seeds=(1, 2, 3, 4, 5, 
         # longer histories: seeded random walks over the same alphabet, ending in an owned read
         ops = KINDS[kind]["reads"] + KINDS[kind]["muts"] + KINDS[kind]["derivs"] + KINDS[kind].get("draws", [])
         last = [x for x in KINDS[kind]["reads"] + KINDS[kind].get("draws", []) if owned is None or owner(kind, x) in owned]
-        for _ in range(1500):
-            n = rnd.randint(4, 7)
+        for _ in range({"sampler": 250}.get(kind, 1500)):
+            n = rnd.randint(4, 7) if kind != "sampler" else rnd.randint(4, 5)
             chosen.append([rnd.choice(ops) for _ in range(n - 1)] + [rnd.choice(last)])
     cases = []
     reps = {"data": 4, "samples": 2, "prior": 1, "sampler": 1}[kind]        # configurations per history (data: the four input variants)
